@@ -447,9 +447,33 @@ func (p *TermPool) bvBin(op Op, a, b *Term) *Term {
 			return p.BV(r, w)
 		}
 	}
+	// arithmetic on sign/zero-extended operands is canonicalised to the narrowest width that
+	// cannot overflow, then sign-extended (lemma: rewrite-extarith, checked by selftest)
+	switch op {
+	case OpBVMul, OpBVAdd, OpBVSub:
+		ea := a.Op == OpSignExt || a.Op == OpZeroExt
+		eb := b.Op == OpSignExt || b.Op == OpZeroExt
+		if (ea || eb) && (ea || a.IsConst()) && (eb || b.IsConst()) {
+			wa, wb := signedWidthOf(a), signedWidthOf(b)
+			need := max(wa, wb) + 1
+			if op == OpBVMul {
+				need = wa + wb
+			}
+			if need < w {
+				return p.SignExt(w-need, p.bvBin(op, p.narrowSigned(a, need), p.narrowSigned(b, need)))
+			}
+		}
+	}
 	// division of extended operands is done at the narrow width (lemma: rewrite-div, checked by selftest)
 	switch op {
 	case OpBVSDiv, OpBVSRem:
+		if nonNegative(a) && nonNegative(b) {
+			// signed division of non-negative operands is unsigned division (lemma: rewrite-div)
+			if op == OpBVSDiv {
+				return p.bvBin(OpBVUDiv, a, b)
+			}
+			return p.bvBin(OpBVURem, a, b)
+		}
 		if n := signExtWidth(a, b); n > 0 && n < w {
 			x, y := p.narrowSigned(a, n), p.narrowSigned(b, n)
 			if op == OpBVSRem {
@@ -534,6 +558,16 @@ func unsignedWidthOf(t *Term) int {
 		return n
 	}
 	return t.Sort.W
+}
+
+func nonNegative(t *Term) bool {
+	switch t.Op {
+	case OpZeroExt:
+		return true
+	case OpConst:
+		return t.C>>(uint(t.Sort.W)-1)&1 == 0
+	}
+	return false
 }
 
 func signExtWidth(a, b *Term) int {
@@ -622,6 +656,12 @@ func (p *TermPool) Extract(hi, lo int, a *Term) *Term {
 	if a.Op == OpZeroExt && lo >= a.Args[0].Sort.W {
 		return p.BV(0, hi-lo+1)
 	}
+	if lo == 0 && a.Op == OpSignExt && hi >= a.Args[0].Sort.W {
+		return p.SignExt(hi+1-a.Args[0].Sort.W, a.Args[0])
+	}
+	if lo == 0 && a.Op == OpZeroExt && hi >= a.Args[0].Sort.W {
+		return p.ZeroExt(hi+1-a.Args[0].Sort.W, a.Args[0])
+	}
 	if a.Op == OpConcat {
 		lw := a.Args[1].Sort.W
 		if hi < lw {
@@ -673,6 +713,9 @@ func (p *TermPool) SignExt(n int, a *Term) *Term {
 	if a.Op == OpZeroExt {
 		return p.ZeroExt(n+a.P1, a.Args[0])
 	}
+	if a.Op == OpSignExt {
+		return p.SignExt(n+a.P1, a.Args[0])
+	}
 	return p.intern(&Term{Op: OpSignExt, Sort: bvSort(a.Sort.W + n), Args: []*Term{a}, P1: n})
 }
 
@@ -709,11 +752,93 @@ func fpToBits(f float64, w int) uint64 {
 	panic("fpToBits width")
 }
 
+func fpPrec(w int) int {
+	_, sb := fpParams(w)
+	return sb
+}
+
+// intView reports whether the float term t is syntactically known to be an exactly
+// represented integer: t == to_fp_signed(x) with x of effective signed width eff
+// (|x| <= 2^(eff-1) <= 2^prec). Used to do integer arithmetic that programs route
+// through float64 exactly (lemma: rewrite-intfloat, checked by selftest).
+func (p *TermPool) intView(t *Term) (x *Term, eff int, ok bool) {
+	prec := fpPrec(t.Sort.W)
+	switch t.Op {
+	case OpFPFromSBV:
+		a := t.Args[0]
+		eff = signedWidthOf(a)
+		if a.Sort.W <= 64 && eff <= prec+1 {
+			return a, eff, true
+		}
+	case OpFPFromUBV:
+		a := t.Args[0]
+		eff = unsignedWidthOf(a) + 1
+		if a.Sort.W < 64 && eff <= prec+1 {
+			return p.ZeroExt(1, a), eff, true
+		}
+	case OpFPToFP:
+		x, eff, ok = p.intView(t.Args[0])
+		if ok && eff <= prec+1 {
+			return x, eff, true
+		}
+	case OpConst:
+		if t.Sort.W != 32 && t.Sort.W != 64 {
+			return nil, 0, false
+		}
+		f := fpFromBits(t.C, t.Sort.W)
+		if f != f || f != math.Trunc(f) || math.Abs(f) > 4503599627370496 || (f == 0 && math.Signbit(f)) {
+			return nil, 0, false
+		}
+		v := int64(f)
+		c := p.BV(uint64(v), 64)
+		return c, signedWidthOf(c), true
+	}
+	return nil, 0, false
+}
+
+// resizeSigned returns the W-bit two's complement form of x (x is the sign extension of its low min(W,..) bits).
+func (p *TermPool) resizeSigned(x *Term, W int) *Term {
+	switch {
+	case x.Sort.W == W:
+		return x
+	case x.Sort.W > W:
+		return p.Extract(W-1, 0, x)
+	}
+	return p.SignExt(W-x.Sort.W, x)
+}
+
 func (p *TermPool) fpBin(op Op, a, b *Term) *Term {
 	if a.Sort != b.Sort || a.Sort.K != SFP {
 		panic("fp binop sort mismatch")
 	}
 	w := a.Sort.W
+	if op == OpFPAdd || op == OpFPSub || op == OpFPMul {
+		if x1, w1, ok1 := p.intView(a); ok1 {
+			if x2, w2, ok2 := p.intView(b); ok2 {
+				prec := fpPrec(w)
+				switch op {
+				case OpFPAdd, OpFPSub:
+					W := max(w1, w2) + 1
+					if W <= prec+1 && W <= 64 {
+						bop := OpBVAdd
+						if op == OpFPSub {
+							bop = OpBVSub
+						}
+						return p.FPFromBV(p.bvBin(bop, p.resizeSigned(x1, W), p.resizeSigned(x2, W)), true, w)
+					}
+				case OpFPMul:
+					W := w1 + w2
+					if W <= prec+1 && W <= 64 {
+						X := p.bvBin(OpBVMul, p.resizeSigned(x1, W), p.resizeSigned(x2, W))
+						z1 := p.bvCmp(OpBVSlt, x1, p.BV(0, x1.Sort.W))
+						z2 := p.bvCmp(OpBVSlt, x2, p.BV(0, x2.Sort.W))
+						negZero := p.And(p.Eq(X, p.BV(0, W)), p.Not(p.Eq(z1, z2)))
+						return p.Ite(negZero, p.FPBits(uint64(1)<<uint(w-1), w), p.FPFromBV(X, true, w))
+					}
+				}
+			}
+		}
+	}
 	if a.IsConst() && b.IsConst() && (w == 32 || w == 64) && op != OpFPMin && op != OpFPMax {
 		if w == 32 {
 			x, y := math.Float32frombits(uint32(a.C)), math.Float32frombits(uint32(b.C))
@@ -752,6 +877,22 @@ func (p *TermPool) fpCmp(op Op, a, b *Term) *Term {
 		panic("fp cmp sort mismatch")
 	}
 	w := a.Sort.W
+	if !(a.IsConst() && b.IsConst()) {
+		if x1, w1, ok1 := p.intView(a); ok1 {
+			if x2, w2, ok2 := p.intView(b); ok2 {
+				W := max(w1, w2)
+				y1, y2 := p.resizeSigned(x1, W), p.resizeSigned(x2, W)
+				switch op {
+				case OpFPLt:
+					return p.bvCmp(OpBVSlt, y1, y2)
+				case OpFPLe:
+					return p.bvCmp(OpBVSle, y1, y2)
+				case OpFPEq:
+					return p.Eq(y1, y2)
+				}
+			}
+		}
+	}
 	if a.IsConst() && b.IsConst() && (w == 32 || w == 64) {
 		x, y := fpFromBits(a.C, w), fpFromBits(b.C, w)
 		switch op {
@@ -768,6 +909,13 @@ func (p *TermPool) fpCmp(op Op, a, b *Term) *Term {
 
 func (p *TermPool) fpUn(op Op, a *Term) *Term {
 	w := a.Sort.W
+	if op == OpFPNeg && !a.IsConst() {
+		if x, eff, ok := p.intView(a); ok && eff+1 <= fpPrec(w)+1 && eff+1 <= 64 {
+			X := p.BVNeg(p.resizeSigned(x, eff+1))
+			isZero := p.Eq(x, p.BV(0, x.Sort.W))
+			return p.Ite(isZero, p.FPBits(uint64(1)<<uint(w-1), w), p.FPFromBV(X, true, w))
+		}
+	}
 	if a.IsConst() && (w == 32 || w == 64) {
 		x := fpFromBits(a.C, w)
 		switch op {
@@ -787,6 +935,18 @@ func (p *TermPool) fpUn(op Op, a *Term) *Term {
 
 func (p *TermPool) fpPred(op Op, a *Term) *Term {
 	w := a.Sort.W
+	if !a.IsConst() {
+		if x, _, ok := p.intView(a); ok {
+			switch op {
+			case OpFPIsNaN, OpFPIsInf, OpFPIsSubnormal:
+				return p.Bool(false)
+			case OpFPIsZero:
+				return p.Eq(x, p.BV(0, x.Sort.W))
+			case OpFPIsNeg:
+				return p.bvCmp(OpBVSlt, x, p.BV(0, x.Sort.W))
+			}
+		}
+	}
 	if a.IsConst() && (w == 32 || w == 64) {
 		x := fpFromBits(a.C, w)
 		switch op {
@@ -805,6 +965,11 @@ func (p *TermPool) fpPred(op Op, a *Term) *Term {
 
 func (p *TermPool) FPRound(mode int, a *Term) *Term {
 	w := a.Sort.W
+	if !a.IsConst() {
+		if _, _, ok := p.intView(a); ok {
+			return a
+		}
+	}
 	if a.IsConst() && (w == 32 || w == 64) {
 		x := fpFromBits(a.C, w)
 		var r float64
@@ -874,6 +1039,17 @@ func (p *TermPool) FPToBV(a *Term, signed bool, w int) *Term {
 	op := OpFPToUBV
 	if signed {
 		op = OpFPToSBV
+	}
+	if a.IsConst() && (a.Sort.W == 32 || a.Sort.W == 64) && w <= 64 {
+		x := math.Trunc(fpFromBits(a.C, a.Sort.W))
+		if signed {
+			lim := math.Ldexp(1, w-1)
+			if x == x && x < lim && x >= -lim {
+				return p.BV(uint64(int64(x)), w)
+			}
+		} else if x == x && x >= 0 && x < math.Ldexp(1, w) && x < 9223372036854775808.0 {
+			return p.BV(uint64(x), w)
+		}
 	}
 	return p.intern(&Term{Op: op, Sort: bvSort(w), Args: []*Term{a}})
 }
